@@ -86,6 +86,7 @@ partial def schema? : SX → Option Schema
     | some ps, some req, some ad => some (.object ps req ad)
     | _, _, _ => none
   | .list [.atom "dict", s] => (schema? s).map .dict
+  | .list [.atom "ndict", s] => (schema? s).map .ndict
   | .list [.atom "ref", n] => n.str?.map .ref
   | .list (.atom "anyOf" :: xs) => (xs.mapM schema?).map .anyOf
   | .list (.atom "oneOf" :: xs) => (xs.mapM schema?).map .oneOf
